@@ -453,6 +453,14 @@ def gen_append_timing(repo):
     return m
 
 
+def gen_test_loops(repo, digital_state):
+    """T19: the comparison loops of DigitalWaveform.test"""
+    m = T.Module(f"{repo}/src/nitypes/waveform/_digital/_waveform.py", "Gen.TestLoops", imports=[digital_state])
+    m.extra_imports = ["NiVerif.Model.DigitalTest"]
+    m.translate_test_loops("DigitalWaveform", "test_loops")
+    return m
+
+
 MODULES = [
     # (output file, builder, dependencies by output name)
     ("TimeValueTuple", lambda repo, deps: gen_time_value_tuple(repo), []),
@@ -478,6 +486,7 @@ MODULES = [
     ("Names", lambda repo, deps: gen_names(repo), []),
     ("BtArray", lambda repo, deps: gen_bt_array(repo), []),
     ("AppendTiming", lambda repo, deps: gen_append_timing(repo), []),
+    ("TestLoops", lambda repo, deps: gen_test_loops(repo, deps["DigitalState"]), ["DigitalState"]),
 ]
 
 
